@@ -259,6 +259,11 @@ func (msg *MessageAuth) FromBytes(src []byte) error {
 		chunk = &MessageChunk{}
 		p = i * (MessageChunkBytesMax + 2)
 
+		// A chunk has at least 2 bytes for its length and type (a full chunk may be the last one).
+		if l < p+2 {
+			return ErrIncorrectSourceBytes
+		}
+
 		chunk.Length = src[p]
 		if (q > 1 && i < q-1 && int(chunk.Length) != MessageChunkBytesMax) ||
 			(l < p+2+int(chunk.Length)) || int(chunk.Length) < MessageChunkBytesMin {
@@ -296,6 +301,10 @@ func (msg *MessageAuth) FromChunks(chunks []*MessageChunk) error {
 	var foundDelimiter bool
 	for i, b := range src {
 		if b == MessageChunkBytesDelimiter {
+			// At least a parity byte must follow the delimiter.
+			if i == len(src)-1 {
+				break
+			}
 			msg.Username = string(src[:i])
 			msg.PublicKeyBytes = src[i+1 : len(src)-1]
 			msg.PublicKeyParity = src[len(src)-1]
